@@ -318,7 +318,8 @@ pub fn judge(rt: &tokio::runtime::Runtime, r: &mut Report, case: &Case) {
 fn check_ip_hosts(rt: &tokio::runtime::Runtime, r: &mut Report) {
     let hosts = [
         "127.0.0.1", "127.0.0.1:9000", "10.1.2.3", "255.255.255.255:1", "0.0.0.0", "[::1]", "[::1]:9000", "[2001:db8::1]", "[2001:db8::1]:443",
-        "[fe80::1%25eth0]:80", "[::ffff:192.0.2.1]", "[::ffff:192.0.2.1]:8080",
+        "[fe80::1%25eth0]:80", "[::ffff:192.0.2.1]", "[::ffff:192.0.2.1]:8080", "[64:ff9b::192.0.2.33]:443", "[64:ff9b::192.0.2.33]", "::ffff:10.0.0.1", "::1", "2001:db8::7", "[::]",
+        "[::]:1", "[0:0:0:0:0:ffff:1.2.3.4]:65535", "1.2.3.4:65535", "[2001:DB8::A]:9000",
     ];
     for host_cfg in [HostCfg::None, HostCfg::Single("example.com".into()), HostCfg::Multi(vec!["example.com".into(), "s3.example.org:9000".into()])] {
         for h in hosts {
